@@ -32,7 +32,33 @@ def check_g1(pid, tier):
     )
 
 
-CHECKS = {"C05": check_g1, "C07": check_g1, "C09": check_g1}
+def check_g2(pid, tier):
+    from . import g2
+
+    t0 = time.time()
+    pts = g2.lattice(tier)
+    results = runner.run_pool(g2.g2_task, [(pid, p) for p in pts], chunks=2)
+    obs, crashes, trusted = [], [], set()
+    for r in results:
+        if "crash" in r:
+            crashes.append(r["crash"] + " @ " + r["payload"] + "\n" + r["trace"][-600:])
+            continue
+        obs.extend(r["obligations"])
+        trusted.update(r.get("trusted", ()))
+    return runner.finish(
+        pid, tier, obs, t0,
+        technique="VCs from the harvested generated to_dict (pysym, all instances and keyword flags symbolic) against PROJECT(options, plain), z3; exhaustive option lattice",
+        units=len(pts),
+        extra_cov={"lattice_points": len(pts), "exhaustive": True,
+                   "explanation": "one obligation per (schema/option point, compiled unit, set of passed flag arguments): all paths x all instances"},
+        trusted=trusted | {"hole serialisation is uninterpreted and does not raise on conforming values (induction hypothesis)",
+                           "== is transitive for default objects (factory defaults are called once at build time)"},
+        functions=["<generated> __mashumaro_to_dict__ (CodeBuilder._add_pack_method_lines, _pack_method_set_value, get_pack_method_default_flag_values, get_pack_method_flags)"],
+        crashes=crashes,
+    )
+
+
+CHECKS = {"C05": check_g1, "C07": check_g1, "C09": check_g1, "C08": check_g2}
 
 
 def main(argv):
